@@ -168,6 +168,7 @@ type harness struct {
 	obs    *maintObs
 	sample []string
 	ver    uint64
+	batches int // write batches so far (each becomes a memory part)
 }
 
 // oracleFor files a comparison class under its oracle: duplicates are one finding whatever scenario sees them.
@@ -182,6 +183,7 @@ func dayOf(ms int64) string { return time.UnixMilli(ms).In(time.Local).Format("2
 
 // write sends one batch; false = stop the run.
 func (h *harness) write(spans []*wl.Span) bool {
+	h.batches++
 	reqs := h.m.ToRequests(spans, h.ver+1)
 	h.ver += uint64(len(reqs))
 	resps, err := h.n.WriteTrace(reqs)
@@ -283,6 +285,7 @@ func runNoSampler(e *simcore.Env, tp *simcore.Tape) {
 		}
 		defer n.Stop()
 		m := wl.NewTraceModel(s)
+		m.TolerateTag = func(kind string) bool { return e.Known("value-fidelity", "trace:"+kind) } // C01's clause for traces: recorded kinds are counted, others fail
 		h := &harness{e: e, tp: tp, n: n, s: s, m: m, obs: &maintObs{prev: map[string][]string{}}}
 		big := tp.Bool(1, 25)
 		spread := []int64{0, 1000, 3600_000, 2 * 86400_000}[tp.Choose(4)]
@@ -472,7 +475,13 @@ func (h *harness) checkOrdered(where string, lo, hi int64, visible func(id strin
 			minB, maxB = min(minB, keyOf(w)), max(maxB, keyOf(w))
 		}
 		if (!desc && minA > maxB) || (desc && maxA < minB) {
-			e.Fail("ordered-index", "traces-out-of-key-order", "%s: ordered query (%s desc=%v %s in [%d,%d]) returned trace %q (keys %d..%d) before trace %q (keys %d..%d)", where, rule, desc, condTag, cLo, cHi, seq[i-1].id, minA, maxA, seq[i].id, minB, maxB)
+			cls := "traces-out-of-key-order"
+			if h.batches > 10 {
+				// many batches = many parts: more index blocks than one scan batch holds (32), where the ordered index
+				// merges batch by batch (C09's recorded sidx finding, seen here at the trace level)
+				cls += ":many-batches"
+			}
+			e.Fail("ordered-index", cls, "%s: ordered query (%s desc=%v %s in [%d,%d]) returned trace %q (keys %d..%d) before trace %q (keys %d..%d)", where, rule, desc, condTag, cLo, cHi, seq[i-1].id, minA, maxA, seq[i].id, minB, maxB)
 			return
 		}
 	}
@@ -842,6 +851,7 @@ func runSampler(e *simcore.Env, tp *simcore.Tape, gated bool) {
 			stopAndReport(e, n)
 		}()
 		m := wl.NewTraceModel(s)
+		m.TolerateTag = func(kind string) bool { return e.Known("value-fidelity", "trace:"+kind) } // C01's clause for traces: recorded kinds are counted, others fail
 		h := &harness{e: e, tp: tp, n: n, s: s, m: m, obs: &maintObs{prev: map[string][]string{}}}
 
 		grace := []time.Duration{time.Minute, 10 * time.Minute, time.Hour}[tp.Choose(3)]
